@@ -176,6 +176,31 @@ def rule_map(c: Ctx) -> RuleResult:
                 env = res[n.id]
                 vb = vn.val(b, env, n.id)
                 cur = VN.get(env, kline)
+                if helper_sites and isinstance(b, ast.Name) and b.id in params and vb == entry(b.id):
+                    # the map end is handed to the helper: at every call site the argument must be the caller's cursor, advanced
+                    # before the call and not written again before return True
+                    for (caller, a_, cs_) in helper_sites:
+                        arg_b = c.eff.arg_for_param(cs_, f, b.id)
+                        ccfg, cres, cvn = analyse(c, caller)
+                        ckline = f"{caller.node.args.args[0].arg}.line"
+                        crets = _ret_true_nodes(c, caller, ccfg)
+                        for cn in ccfg.owner(cs_.node):
+                            if cres.get(cn.id) is None or arg_b is None:
+                                if arg_b is None:
+                                    bad = f"{caller.short} passes no value for the map end `{b.id}` of {f.short}"
+                                continue
+                            ccur = VN.get(cres[cn.id], ckline)
+                            if ccur == entry(ckline):
+                                bad = f"{caller.short} calls {f.short} before advancing {ckline}: the recorded map end would be the start line"
+                            elif cvn.val(arg_b, cres[cn.id], cn.id) != ccur:
+                                bad = f"{caller.short} passes `{U(arg_b)}` as the map end of {f.short}, which is not the cursor {ckline} at the call"
+                            for rn in crets:
+                                if rn.id in ccfg.reachable_from([cn]) and cres.get(rn.id) is not None and VN.get(cres[rn.id], ckline) != ccur \
+                                        and VN.get(cvn.edge(cn, cres[cn.id], "", ccfg.exit) or {}, ckline) != VN.get(cres[rn.id], ckline):
+                                    bad = f"{ckline} is written again in {caller.short} between the call of {f.short} and `return True`"
+                    if bad:
+                        break
+                    continue
                 if cur == entry(kline) and helper_sites and vb == cur:
                     # judged in the callers: the cursor must have been advanced before the call and stay put until return True
                     for (caller, a_, cs_) in helper_sites:
